@@ -1409,7 +1409,7 @@ func (vm *VM) registerBuiltins() {
 		return IntValue{Val: time.Now().Unix()}, nil
 	}
 
-	// length() - returns length of array or string
+	// length() - returns length of array, string or object
 	vm.builtins["length"] = func(args []Value) (Value, error) {
 		if len(args) != 1 {
 			return nil, fmt.Errorf("length() takes exactly 1 argument, got %d", len(args))
@@ -1420,8 +1420,11 @@ func (vm *VM) registerBuiltins() {
 			return IntValue{Val: int64(len(val.Val))}, nil
 		case StringValue:
 			return IntValue{Val: int64(len([]rune(val.Val)))}, nil
+		case ObjectValue:
+			// the interpreter counts the entries of an object; a compiled route must not differ
+			return IntValue{Val: int64(len(val.Val))}, nil
 		default:
-			return nil, fmt.Errorf("length() requires array or string, got %T", val)
+			return nil, fmt.Errorf("length() requires array, string or object, got %T", val)
 		}
 	}
 
